@@ -109,6 +109,7 @@ func ruleC08NewSize(e *Env) {
 		kEmpty  = `unit==""`
 		kRound  = "roundtrip"
 		kHi     = "hi!=0"
+		kLim    = "value?limit"
 		kByte   = `unit=="B"`
 		mulTerm = "math/bits.Mul64"
 	)
@@ -137,8 +138,9 @@ func ruleC08NewSize(e *Env) {
 			return kHi, true
 		case as == "conv[uint64](value)" && bs == "/(18446744073709551615,"+mult+")":
 			// the other exact overflow test: value > MaxUint64 / multiplier ⇔ the product needs more than 64 bits
-			// (multiplier ≥ 1: C08.tab; that the divisor is not zero is C18.T1's obligation)
-			return kHi, true
+			// (multiplier ≥ 1: C08.tab; that the divisor is not zero is C18.T1's obligation); three-valued, so that a
+			// test other than `>` (a `!=`, a `>=`) is seen on the side it gets wrong
+			return kLim, true
 		}
 		return "", false
 	}
@@ -150,6 +152,9 @@ func ruleC08NewSize(e *Env) {
 		}
 		if k == kRound {
 			return []int{0, 1, pred.Unordered}
+		}
+		if k == kLim {
+			return []int{-1, 0, 1}
 		}
 		return []int{0, 1}
 	}
@@ -218,7 +223,11 @@ func ruleC08NewSize(e *Env) {
 			case rt == 1 && get(kEmpty) == 0 && get(kUTV) == 0:
 				want = "0 / InvalidUnitError"
 			case rt == 1 && get(kEmpty) == 0 && get(kUTV) == 1:
-				switch get(kHi) {
+				hi := get(kHi)
+				if v, ok := lf.Assign[kLim]; ok { // value against MaxUint64/multiplier: the product overflows iff above
+					hi = map[bool]int{true: 0, false: 1}[v == 1]
+				}
+				switch hi {
 				case 1: // hi == 0
 					want = "lo / nil"
 				case 0:
@@ -494,12 +503,9 @@ func ruleC08Bytes(e *Env) {
 			}
 			return "", false
 		}
-		domain := func(key string) []int {
-			if key == "roundtrip" {
-				return []int{0, 1}
-			}
-			return []int{-1, 0, 1}
-		}
+		// the round trip has three outcomes: the float is the size, or the nearest float lies below or above it
+		// (rounding up is as much a changed value as rounding down)
+		domain := func(key string) []int { return []int{-1, 0, 1} }
 		leaves, err := extractTree(e.P.SSA, fn, func() []pred.Val { return []pred.Val{pred.Sym{Name: "s"}} }, sums, nil, keyOf, domain)
 		if err != nil {
 			e.S.Unk(rule, site, k.kind, err.Error(), e.Pos(fn))
@@ -731,6 +737,40 @@ func ruleC08Object(e *Env) {
 				ok = okb && okw && b == 10 && w == 64 && txt
 			}
 		}
+		// ParseUint's error decides: the number is handed on only where that error is nil (on ErrRange the value
+		// returned is the saturated MaxUint64, on ErrSyntax 0 — neither is the token's number)
+		if ok {
+			pe := parseErrOf(st)
+			good := pe != nil
+			for _, r := range flow.Returns(dv) {
+				if !(len(r.Results) == 2 && flow.IsNilConst(r.Results[1])) {
+					continue
+				}
+				dom := false
+				for _, b := range dv.Blocks {
+					iff, isIf := b.Instrs[len(b.Instrs)-1].(*ssa.If)
+					if !isIf {
+						continue
+					}
+					cmp, isCmp := iff.Cond.(*ssa.BinOp)
+					if !isCmp || (cmp.Op != token.NEQ && cmp.Op != token.EQL) || !(cmp.X == pe && flow.IsNilConst(cmp.Y) || cmp.Y == pe && flow.IsNilConst(cmp.X)) {
+						continue
+					}
+					nilSide := b.Succs[map[bool]int{true: 0, false: 1}[cmp.Op == token.EQL]]
+					if len(nilSide.Preds) == 1 && nilSide.Dominates(r.Block()) {
+						dom = true
+					}
+				}
+				if !dom {
+					good = false
+				}
+			}
+			if good {
+				e.S.Ok(rule, site, "number error", "the number is returned only where ParseUint's error is nil", e.Pos(dv))
+			} else {
+				e.S.Bad(rule, site, "number error", "the parsed number is handed on on a path where ParseUint's error is not known to be nil: out of range it is the saturated 18446744073709551615, not the token's number", e.Pos(dv), `{"value":99999999999999999999,"unit":"B"}`)
+			}
+		}
 		if ok {
 			e.S.Ok(rule, site, "number", "&u with u = strconv.ParseUint(token.(json.Number).String(), 10, 64)", e.Pos(dv))
 		} else {
@@ -748,6 +788,20 @@ func ruleC08Object(e *Env) {
 		}
 		e.S.Bad(rule, site, "unit", "the unit member is not the string token unchanged", e.Pos(du), "")
 	}
+}
+
+// parseErrOf: v is result #0 of a call; returns the Extract of result #1 (the error), nil if it is never taken.
+func parseErrOf(v ssa.Value) ssa.Value {
+	ex, ok := v.(*ssa.Extract)
+	if !ok {
+		return nil
+	}
+	for _, r := range *ex.Tuple.Referrers() {
+		if e1, ok := r.(*ssa.Extract); ok && e1.Index == 1 {
+			return e1
+		}
+	}
+	return nil
 }
 
 // typeAssertOperand: v is `x.(T)` (plain or comma-ok, result #0) — returns x.
